@@ -8,7 +8,8 @@ const char* RULE =
     "enum: every nx in 2..130 x {linear, log, user-supplied non-uniform} with a fixed range and x at every node, every node +-1 ulp, every "
     "midpoint and both ends [exhaustive over the nx window]; pbt: nx up to 5000, scale linear/log, a<b classes (negative, straddling 0, nearly "
     "equal, 1e-10..1e12 for log), user grids (uniform, geometric, clustered, with ties; unsorted and wrongly sized ones must be rejected), x "
-    "classes: node, node +-1 ulp, midpoint, random interior, a, b, outside by 1 ulp, far outside, +-inf. Oracle: nodes non-decreasing, first "
+    "classes: node, node +-1 ulp, midpoint, random interior, a, b, outside by 1 ulp, far outside, +-inf; 0..2 earlier grids of any kind set on "
+    "the same object first. Oracle: nodes non-decreasing, first "
     "node == a (linear) or within C eps (1+|log a|) (log), last within the same bound of b, deviation from the ideal arithmetic/geometric "
     "progression <= C eps scaled, vector overload bit-exact; Get_i(x): validity predicate i<=nx-2 and x_i<=x<=x_{i+1} (any valid i accepted "
     "with ties), exception iff x outside [x_first,x_last]. Non-trivial: nx-1 not a power of two, or a non-uniform grid, or x within 1 ulp of a "
@@ -105,6 +106,16 @@ void run_case(ByteSource& s, CaseInfo& ci) {
     return;
   }
   Grid g(nx);
+  // history: earlier grids set on the same object must leave no trace
+  int npre = (int)s.choose(3);
+  std::string pre;
+  for (int k = 0; k < npre; k++) {
+    unsigned pk = s.choose(3);
+    if (pk == 0) { double a = s.num(8); g.Set_xrange(a, a + 0.5 + 4 * s.unif01(), "linear"); pre += "linear,"; }
+    else if (pk == 1) { double a = 0.01 + s.unif01(); g.Set_xrange(a, a * (2 + 50 * s.unif01()), "log"); pre += "log,"; }
+    else { std::vector<double> xs(nx); double cur = s.num(6); for (auto& v : xs) { v = cur; cur += 1e-3 + (fabs(cur) + 1) * std::min(0.5, 20.0 / nx) * s.unif01(); } g.Set_xrange(xs); pre += "vector,"; }
+  }
+  if (npre) { ci.label(fmt("history-%d", npre)); ci.nontrivial = true; }
   std::string ctx;
   std::vector<double> x;
   if (kind == 0) {
@@ -183,6 +194,7 @@ void run_case(ByteSource& s, CaseInfo& ci) {
     ci.label(std::string("user-") + uks[uk]);
   }
   ci.label(std::string("grid-") + kinds[kind]); ci.label(pow2(nx - 1) ? "nx-1-pow2" : "nx-1-nonpow2");
+  if (npre) ctx += " after earlier grids on the same object: " + pre;
   ci.sample = ctx;
   check_grid_and_lookups(s, ci, g, x, ctx, mode == 0);
 }
@@ -190,7 +202,7 @@ void run_case(ByteSource& s, CaseInfo& ci) {
 void enumerate(const Emit& emit, const std::string&) {
   for (unsigned nx = 2; nx <= 130; nx++)
     for (uint8_t kind = 0; kind < 3; kind++) {
-      std::vector<uint8_t> b = {0, (uint8_t)(nx - 2), kind};
+      std::vector<uint8_t> b = {0, (uint8_t)(nx - 2), kind, 0 /* no earlier grid */};
       if (kind == 0) { b.push_back(0); b.push_back(1); }            // range class 0: [0,1], name flag
       else if (kind == 1) { b.push_back(0); b.push_back(1); }       // [1,1e3]
       else { b.push_back(1); for (int k = 0; k < 8; k++) b.push_back((uint8_t)(3 * k + 1)); }  // geometric user grid
